@@ -4,7 +4,7 @@ from __future__ import annotations
 
 import numpy as np
 
-from .. import genwork, oracles
+from .. import genwork, lib, oracles
 from ..core import call_watchdog
 from ..ref import Graph
 
@@ -23,7 +23,7 @@ NSHARDS = {"quick": 16, "thorough": 16}
 THRESHOLDS = {
     "quick": {"repotests:ambient:gen:gen_dfs?repotests:runs": 50, "c12:not-flagged": 500, "c12:perc-strict-subset": 200, "c12:no-forks-nontrivial": 100, "c12:random-path-ok": 1000,
               "c12:exact-count-checked": 300, "c12:gen_dfs": 500, "c12:gen_wilson": 100, "c12:gen_percolation": 300,
-              "c12:gen_dfs_percolation": 300, "c12:get_connected_component": 500, "c12:threaded-generations": 200, "c12:metadata-rejudged-after-draws": 1000, "c12:random-path-with-options": 3000, "c12:callers-start-array-changed-afterwards": 100, "c12:reloaded-mazes": 300, "c12:option-draws-judged-against-recorded-component": 2000, "c12:refused-option-draws-judged": 50, "hits:gen_dfs": 1},
+              "c12:gen_dfs_percolation": 300, "c12:get_connected_component": 500, "c12:threaded-generations": 200, "c12:metadata-rejudged-after-draws": 1000, "c12:random-path-with-options": 3000, "c12:callers-start-array-changed-afterwards": 100, "c12:reloaded-mazes": 300, "c12:collect-failed-half-way": 30, "c12:component-answer-overwritten-by-caller": 1000, "c12:option-draws-judged-against-recorded-component": 2000, "c12:refused-option-draws-judged": 50, "hits:gen_dfs": 1},
 }
 THRESHOLDS["thorough"] = dict(THRESHOLDS["quick"])
 ANCHORS = [
@@ -100,6 +100,7 @@ def run(ctx):
                 ctx.tally("c12:callers-start-array-changed-afterwards")
                 oracles.check_c12(ctx, gen, (R, C), kw, maze, g, dict(case, after="the caller changed its own start_coord array in place"))
     _reloaded(ctx, 60 if ctx.quick else 600)
+    _failed_collect(ctx, 48 if ctx.quick else 480)
 
 
 def _reloaded(ctx, n):
@@ -157,6 +158,54 @@ def _reloaded(ctx, n):
                         break
                     prob = g.path_problems(path)
                     ctx.check(prob is None, "C12/random-path-uses-non-edge", lambda: f"reloaded maze: {prob}", case)
+
+
+def _failed_collect(ctx, n):
+    """a dataset on which collecting the generation metadata FAILS half-way (one maze further down carries none, or a maze carries a
+    user annotation the collector cannot count) and the caller carries on: whatever metadata the mazes carry afterwards must still be
+    true of each of them"""
+    import warnings
+
+    from maze_dataset import MazeDataset, MazeDatasetConfig
+    from maze_dataset.generation.generators import GENERATORS_MAP
+
+    specs = [("gen_dfs", dict(accessible_cells=7)), ("gen_percolation", dict(p=0.35)), ("gen_dfs_percolation", dict(p=0.15, accessible_cells=9)), ("gen_dfs", dict(max_tree_depth=4))]
+    for j in range(n):
+        if not ctx.mine(j):
+            continue
+        gen, kw = specs[j % len(specs)]
+        case0 = dict(kind="failed-collect", gen=gen, kwargs=kw, j=j)
+        with warnings.catch_warnings():
+            warnings.simplefilter("ignore")
+            try:
+                ds = MazeDataset.generate(MazeDatasetConfig(name=f"c12f{j}", grid_n=5, n_mazes=6, maze_ctor=GENERATORS_MAP[gen], maze_ctor_kwargs=dict(kw), seed=2000 + j))
+            except Exception:  # noqa: BLE001
+                continue
+            k_bad = 2 + j % 4
+            if j % 2:
+                ds.mazes[k_bad] = lib.solved(np.asarray(ds.mazes[k_bad].connection_list), [tuple(int(x) for x in c) for c in ds.mazes[k_bad].solution])   # no metadata at all
+            else:
+                ds.mazes[k_bad].generation_meta["user_note"] = {"reviewed": True}   # an annotation that cannot be counted
+            try:
+                ds.filter_by.collect_generation_meta()
+                ctx.tally("c12:collect-succeeded(not the case aimed at)")
+            except Exception:  # noqa: BLE001
+                ctx.tally("c12:collect-failed-half-way")
+        for t, m in enumerate(ds.mazes):
+            meta = m.generation_meta
+            ctx.ev(); ctx.tally("c12:mazes-judged-after-failed-collect")
+            if not meta:
+                continue
+            g = Graph(m.connection_list)
+            case = dict(case0, index=t, cl=np.asarray(m.connection_list))
+            if meta.get("fully_connected"):
+                ctx.check(g.connected(), "C12/flagged-fully-connected-but-is-not", "after a failed collect_generation_meta", case)
+            vc = oracles._as_cellset(meta.get("visited_cells"))
+            if vc is not None and meta.get("start_coord") is not None:
+                sc = tuple(int(x) for x in meta["start_coord"])
+                if g.in_grid(sc):
+                    ctx.check(vc == set(g.component_of(sc)), "C12/visited-cells-not-the-component-of-start",
+                              f"after a failed collect_generation_meta: |visited|={len(vc)} |component of recorded start|={len(g.component_of(sc))}", case)
 
 
 def _threaded(ctx, n_rounds):
@@ -270,6 +319,15 @@ def _random_paths(ctx, maze, g, case, n):
             except Exception as e:  # noqa: BLE001
                 ctx.violation(f"C12/random-path/exception/{type(e).__name__}", f"options {o}: {e!r}"[:500], case)
                 break
+    # what get_connected_component handed back belongs to the caller: rescaled / sorted in place before the metadata is judged again
+    try:
+        cc_own = maze.get_connected_component()
+        if isinstance(cc_own, np.ndarray) and cc_own.size and cc_own.flags.writeable:
+            cc_own *= 2
+            cc_own += 1
+            ctx.tally("c12:component-answer-overwritten-by-caller")
+    except Exception:  # noqa: BLE001
+        pass
     vis1 = oracles._as_cellset((maze.generation_meta or {}).get("visited_cells"))
     ctx.tally("c12:metadata-rejudged-after-draws")
     ctx.check(vis0 == vis1, "C12/endpoint-draws-changed-recorded-visited-cells",
